@@ -3,6 +3,7 @@ package props
 import (
 	"fmt"
 	"math"
+	"math/rand"
 
 	"qeepverif/internal/fw"
 	"qeepverif/internal/ref"
@@ -38,6 +39,14 @@ func runC02(c *fw.Ctx) {
 		}
 	} else {
 		shapes = Shapes(0, 5, 3)
+	}
+
+	// sampled shapes with sizes up to 7 (the enumeration above stops at 3); deterministic in the seed
+	{
+		br := rand.New(rand.NewSource(c.Seed*1000003 + 17))
+		for i := 0; i < c.Pick(40, 400); i++ {
+			shapes = append(shapes, BigShape(br, 1, 150))
+		}
 	}
 
 	one := func(key string, mk func(k *fw.K) (ref.Instr, []*ref.T), nOperands int) {
